@@ -224,6 +224,7 @@ func runC03(c *Ctx) {
 		}
 	}
 	c03Digest(c, g)
+	c03Delta(c, g)
 	// --- R3: gossipRound ---
 	c03Round(c)
 	// --- R5 ---
@@ -534,6 +535,7 @@ func runC12(c *Ctx) {
 	} else {
 		c.fail("C12.anchor", "accrualFailureDetector.ReportWithTimestamp", token.NoPos, "not found")
 	}
+	c12Lifecycle(c, windowsF)
 	c12Window(c)
 	c12Intervals(c)
 	// --- R4 ---
@@ -919,4 +921,317 @@ func valueAlternatives(v ssa.Value, fs *Facts, use *ssa.BasicBlock) []valAlt {
 		return out
 	}
 	return []valAlt{{v, fs.At(use)}}
+}
+
+// c12Lifecycle (C12.R5): one window per node, created exactly when the node
+// has none, kept in the table, primed with the current time, and dropped by
+// Remove.
+func c12Lifecycle(c *Ctx, windowsF *types.Var) {
+	p := c.P
+	c.floor("C12.R5", 6)
+	if windowsF == nil {
+		c.fail("C12.anchor", "accrualFailureDetector.windows", token.NoPos, "not found")
+		return
+	}
+	for _, name := range []string{"accrualFailureDetector.ReportWithTimestamp", "accrualFailureDetector.SuspicionLevelAt"} {
+		fn := p.Func(gsPkg, name)
+		if fn == nil {
+			c.fail("C12.anchor", name, token.NoPos, "not found")
+			continue
+		}
+		c.analysed(fnName(fn))
+		nodeID, ts := ssa.Value(fn.Params[1]), ssa.Value(fn.Params[2])
+		fs := computeFacts(fn)
+		isLookupOK := func(v ssa.Value) bool {
+			ex, ok := v.(*ssa.Extract)
+			if !ok || ex.Index != 1 {
+				return false
+			}
+			lk, ok := ex.Tuple.(*ssa.Lookup)
+			if !ok {
+				return false
+			}
+			_, ok = loadedField(lk.X, windowsF)
+			return ok && strip(lk.Index) == nodeID
+		}
+		nNew := 0
+		allInstrs(fn, func(i ssa.Instruction) {
+			cl, ok := i.(*ssa.Call)
+			if !ok || !strings.HasSuffix(commonName(&cl.Call), "newArrivalWindow") {
+				return
+			}
+			nNew++
+			miss := anyFact(fs.At(cl.Block()), func(f Fact) bool { return isLookupOK(f.V) && !f.T })
+			c.check(miss, "C12.R5", fnName(fn)+"/fresh-window-only-on-miss", cl.Pos(), "a window is created only when windows[nodeID] has none",
+				"a new window replaces (or fails to replace) the node's history: it is not created exactly when the lookup of windows[nodeID] misses; facts "+factStrings(fs.At(cl.Block())))
+			stored := false
+			primed := false
+			for _, r := range *cl.Referrers() {
+				if mu, ok := r.(*ssa.MapUpdate); ok {
+					if _, ok := loadedField(mu.Map, windowsF); ok && strip(mu.Key) == nodeID && strip(mu.Value) == ssa.Value(cl) {
+						stored = true
+					}
+				}
+			}
+			// primed: Add(timestamp) on the fresh window (directly or after the merge) on every path to the return
+			isAdd := isCallTo(gsFn("arrivalWindow).Add"), func(cc *ssa.CallCommon) bool { return strip(cc.Args[1]) == ts && flowsFrom(cc.Args[0], cl) })
+			if end := everyPathFrom(cl, isAdd, nil, true); end == nil {
+				primed = true
+			}
+			c.check(stored, "C12.R5", fnName(fn)+"/fresh-window-kept", cl.Pos(), "windows[nodeID] = window", "the new window is not stored under the node id: every report starts a new history")
+			c.check(primed, "C12.R5", fnName(fn)+"/fresh-window-primed", cl.Pos(), "window.Add(timestamp) follows on every path", "a new window is used without recording the current time as its first arrival: its suspicion level is computed from the zero time")
+		})
+		if nNew == 0 {
+			c.fail("C12.R5", fnName(fn)+"/creates-window", fn.Pos(), "no window is created for a node that has none")
+		}
+	}
+	if fn := p.Func(gsPkg, "accrualFailureDetector.SuspicionLevelAt"); fn != nil {
+		nodeID, ts := ssa.Value(fn.Params[1]), ssa.Value(fn.Params[2])
+		for _, r := range returnsOf(fn) {
+			rv := strip(returnValues(r)[0])
+			cl, ok := rv.(*ssa.Call)
+			good := ok && strings.HasSuffix(commonName(&cl.Call), "arrivalWindow).Phi") && strip(cl.Call.Args[1]) == ts && windowOf(cl.Call.Args[0], windowsF, nodeID)
+			c.check(good, "C12.R5", fnName(fn)+"/phi-of-that-node-now", r.Pos(), "returns windows[nodeID].Phi(timestamp)", "the suspicion level returned is not the Phi of that node's window at the given time")
+		}
+	}
+	if fn := p.Func(gsPkg, "accrualFailureDetector.Remove"); fn != nil {
+		c.analysed(fnName(fn))
+		isDel := func(i ssa.Instruction) bool {
+			cl, ok := i.(*ssa.Call)
+			if !ok {
+				return false
+			}
+			b, ok := cl.Call.Value.(*ssa.Builtin)
+			if !ok || b.Name() != "delete" {
+				return false
+			}
+			_, ok = loadedField(cl.Call.Args[0], windowsF)
+			return ok && strip(cl.Call.Args[1]) == ssa.Value(fn.Params[1])
+		}
+		end := everyPathFrom(fn.Blocks[0].Instrs[0], isDel, nil, true)
+		c.check(end == nil, "C12.R5", fnName(fn)+"/drops-window", fn.Pos(), "delete(windows, nodeID) on every path", "Remove does not drop the node's window: a node that comes back is judged by its stale history")
+	} else {
+		c.fail("C12.anchor", "accrualFailureDetector.Remove", token.NoPos, "not found")
+	}
+}
+
+// windowOf: every input of v is windows[nodeID] or a fresh window.
+func windowOf(v ssa.Value, windowsF *types.Var, nodeID ssa.Value) bool {
+	seen := map[ssa.Value]bool{}
+	var rec func(v ssa.Value) bool
+	rec = func(v ssa.Value) bool {
+		v = strip(v)
+		if seen[v] {
+			return true
+		}
+		seen[v] = true
+		switch x := v.(type) {
+		case *ssa.Phi:
+			for _, e := range x.Edges {
+				if !rec(e) {
+					return false
+				}
+			}
+			return true
+		case *ssa.Extract:
+			lk, ok := x.Tuple.(*ssa.Lookup)
+			if !ok {
+				return false
+			}
+			_, ok = loadedField(lk.X, windowsF)
+			return ok && strip(lk.Index) == nodeID
+		case *ssa.Call:
+			return strings.HasSuffix(commonName(&x.Call), "newArrivalWindow")
+		}
+		return false
+	}
+	return rec(v)
+}
+
+// c03Delta (C03.R7): the reply to a digest withholds nothing it should carry.
+// Every digest entry of a known node yields deltaEntry(entry.ID, entry.Version),
+// appended unless it is empty; with a full digest every node the digest does not
+// name yields deltaEntry(id, 0).
+func c03Delta(c *Ctx, g *gossipAnchors) {
+	p := c.P
+	c.floor("C03.R7", 3)
+	fn := p.Func(gsPkg, "clusterState.Delta")
+	if fn == nil {
+		c.fail("C03.anchor", "clusterState.Delta", token.NoPos, "not found")
+		return
+	}
+	c.analysed(fnName(fn))
+	fs := computeFacts(fn)
+	var fullP ssa.Value
+	for _, pp := range fn.Params {
+		if b, ok := pp.Type().Underlying().(*types.Basic); ok && b.Kind() == types.Bool {
+			fullP = pp
+		}
+	}
+	isRangeOK := func(f Fact) bool {
+		if ex, ok := f.V.(*ssa.Extract); ok {
+			if _, isNext := ex.Tuple.(*ssa.Next); isNext && ex.Index == 0 {
+				return f.T
+			}
+		}
+		if bo, ok := f.V.(*ssa.BinOp); ok && bo.Op == token.LSS {
+			// either polarity: inside the range loop, or after it has finished
+			if cl, ok := bo.Y.(*ssa.Call); ok {
+				if b, ok := cl.Call.Value.(*ssa.Builtin); ok && b.Name() == "len" {
+					_, isParam := cl.Call.Args[0].(*ssa.Parameter)
+					return isParam
+				}
+			}
+		}
+		return false
+	}
+	lookupOf := func(f Fact) (*ssa.Lookup, bool) {
+		ex, ok := f.V.(*ssa.Extract)
+		if !ok || ex.Index != 1 {
+			return nil, false
+		}
+		lk, ok := ex.Tuple.(*ssa.Lookup)
+		return lk, ok
+	}
+	isDigestSet := func(v ssa.Value) bool { _, ok := v.(*ssa.MakeMap); return ok }
+	lenPositive := func(f Fact, res ssa.Value) bool {
+		isLenOfEntries := func(v ssa.Value) bool {
+			cl, ok := v.(*ssa.Call)
+			if !ok {
+				return false
+			}
+			b, ok := cl.Call.Value.(*ssa.Builtin)
+			if !ok || b.Name() != "len" {
+				return false
+			}
+			_, ok = loadedField(cl.Call.Args[0], p.Field(gsPkg, "deltaEntry", "Entries"))
+			return ok
+		}
+		zero := func(v ssa.Value) bool { k, ok := constInt(v); return ok && k == 0 }
+		one := func(v ssa.Value) bool { k, ok := constInt(v); return ok && k == 1 }
+		return cmpFact(f, token.GTR, isLenOfEntries, zero) || cmpFact(f, token.NEQ, isLenOfEntries, zero) || cmpFact(f, token.GEQ, isLenOfEntries, one)
+	}
+	var calls []*ssa.Call
+	allInstrs(fn, func(i ssa.Instruction) {
+		if cl, ok := i.(*ssa.Call); ok && strings.HasSuffix(commonName(&cl.Call), "clusterState).deltaEntry") {
+			calls = append(calls, cl)
+		}
+	})
+	nA, nB := 0, 0
+	for _, cl := range calls {
+		id, ver := cl.Call.Args[1], cl.Call.Args[2]
+		facts := fs.At(cl.Block())
+		k, isConst := constInt(ver)
+		full := isConst && k == 0
+		bad := ""
+		sawFull, sawMiss := false, false
+		for _, f := range facts {
+			switch {
+			case isRangeOK(f):
+			case fullP != nil && f.V == fullP && f.T:
+				sawFull = true
+			default:
+				if lk, ok := lookupOf(f); ok && sameValue(lk.Index, id) {
+					if _, isNodes := loadedField(lk.X, g.nodesF); isNodes && f.T && !full {
+						continue
+					}
+					if isDigestSet(lk.X) && !f.T && full {
+						sawMiss = true
+						continue
+					}
+				}
+				bad = "under the extra condition " + f.String()
+			}
+		}
+		if full {
+			nB++
+			if bad == "" && fullP != nil && !sawFull {
+				bad = "not restricted to a full digest"
+			}
+			if bad == "" && !sawMiss {
+				bad = "not restricted to nodes the digest does not name"
+			}
+			// the key ranges over the nodes table
+			ex, ok := strip(id).(*ssa.Extract)
+			if ok {
+				if nx, ok := ex.Tuple.(*ssa.Next); ok {
+					if rg, ok := nx.Iter.(*ssa.Range); ok {
+						if _, isNodes := loadedField(rg.X, g.nodesF); !isNodes {
+							bad = "the id does not range over the nodes table"
+						}
+					}
+				}
+			} else {
+				bad = "the id does not range over the nodes table"
+			}
+			c.check(bad == "", "C03.R7", fnName(fn)+"/full-digest-covers-unnamed-nodes", cl.Pos(), "deltaEntry(id, 0) for exactly the known nodes a full digest does not name",
+				"the reply to a full digest (join) does not carry exactly the nodes the joiner has never heard of: "+bad)
+		} else {
+			nA++
+			// (entry.ID, entry.Version) of one digest element
+			b1, ok1 := loadedField(id, p.Field(gsPkg, "digestEntry", "ID"))
+			b2, ok2 := loadedField(ver, p.Field(gsPkg, "digestEntry", "Version"))
+			if !(ok1 && ok2 && strip(b1) == strip(b2)) {
+				bad = "the id and version do not come from one digest entry"
+			}
+			c.check(bad == "", "C03.R7", fnName(fn)+"/answers-every-known-node", cl.Pos(), "deltaEntry(entry.ID, entry.Version) for every digest entry whose node is known",
+				"some digest entries of known nodes are not answered, or are answered from the wrong version: "+bad)
+		}
+		// appended unless empty
+		isAppend := func(i ssa.Instruction) bool {
+			ac, ok := i.(*ssa.Call)
+			if !ok {
+				return false
+			}
+			b, ok := ac.Call.Value.(*ssa.Builtin)
+			return ok && b.Name() == "append"
+		}
+		paths, complete := enumPaths(cl, isAppend, nil, func(fp *fpath) bool { return len(fp.seen) > 0 }, 200)
+		bad2 := ""
+		if !complete {
+			bad2 = "too many paths"
+		}
+		for _, pa := range paths {
+			if len(pa.seen) > 0 {
+				continue
+			}
+			empty := anyFact(pa.facts, func(f Fact) bool { nf := f; nf.T = !f.T; return lenPositive(nf, cl) })
+			if !empty {
+				bad2 = "a path from the call ends at " + p.pos(pa.end.Pos()) + " without appending the result and without knowing it is empty; facts " + factStrings(pa.facts)
+			}
+		}
+		kind := "answer"
+		if full {
+			kind = "full-digest"
+		}
+		c.check(bad2 == "", "C03.R7", fnName(fn)+"/appended-unless-empty["+kind+"]", cl.Pos(), "the computed entry is appended unless it has no entries", "the computed difference is dropped: "+bad2)
+	}
+	if nA == 0 {
+		c.fail("C03.R7", fnName(fn)+"/answers-every-known-node", fn.Pos(), "no deltaEntry(entry.ID, entry.Version) call found")
+	}
+	if fullP != nil && nB == 0 {
+		c.fail("C03.R7", fnName(fn)+"/full-digest-covers-unnamed-nodes", fn.Pos(), "the full-digest arm is missing")
+	}
+	// the set of named nodes is filled for every digest entry
+	if nB > 0 {
+		n := 0
+		allInstrs(fn, func(i ssa.Instruction) {
+			mu, ok := i.(*ssa.MapUpdate)
+			if !ok || !isDigestSet(mu.Map) {
+				return
+			}
+			n++
+			extra := ""
+			for _, f := range fs.At(mu.Block()) {
+				if !isRangeOK(f) {
+					extra = f.String()
+				}
+			}
+			_, isID := loadedField(mu.Key, p.Field(gsPkg, "digestEntry", "ID"))
+			c.check(extra == "" && isID, "C03.R7", fnName(fn)+"/named-set-complete", mu.Pos(), "every digest entry's id is recorded", "not every digest entry is recorded as named (condition "+extra+"): nodes the joiner already knows are sent again from version 0, or unknown ones are not sent")
+		})
+		if n == 0 {
+			c.fail("C03.R7", fnName(fn)+"/named-set-complete", fn.Pos(), "the set of nodes named by the digest is never filled")
+		}
+	}
 }
